@@ -120,7 +120,8 @@ fn main() {
         }
         if let Some(fl) = failure {
             // only a case saved as the reproduction of a listed finding may be excused
-            let excused = if rf.expect == "known" { known.find(id_static, &fl.signature) } else { None };
+            let fname = f.file_name().and_then(|n| n.to_str()).unwrap_or("");
+            let excused = if rf.expect == "known" { known.find_ctx(id_static, &fl.signature, fname) } else { None };
             if let Some(k) = excused {
                 if !rep.known_hits.iter().any(|(kf, _)| *kf == k.kf) {
                     rep.known_hits.push((k.kf.clone(), k.what.clone()));
@@ -156,7 +157,7 @@ fn main() {
             .campaigns
             .iter()
             .any(|c| c.name() == v.campaign && !c.probes().is_empty());
-        let k = known.find(id_static, &v.failure.signature);
+        let k = known.find_ctx(id_static, &v.failure.signature, &v.campaign);
         match (is_probe_campaign, k) {
             (true, Some(k)) => {
                 if !rep.known_hits.iter().any(|(kf, _)| *kf == k.kf) {
@@ -175,13 +176,13 @@ fn main() {
         }
     }
     // known findings hit (and tolerated) inside probe campaigns
-    let hit_sigs: Vec<String> = rep
+    let hit_sigs: Vec<(String, String)> = rep
         .counters
         .keys()
-        .filter_map(|k| k.split_once(":known_hit:").map(|(_, s)| s.to_string()))
+        .filter_map(|k| k.split_once(":known_hit:").map(|(c, s)| (c.to_string(), s.to_string())))
         .collect();
-    for s in hit_sigs {
-        if let Some(k) = known.find(id_static, &s) {
+    for (c, s) in hit_sigs {
+        if let Some(k) = known.find_ctx(id_static, &s, &c) {
             if !rep.known_hits.iter().any(|(kf, _)| *kf == k.kf) {
                 rep.known_hits.push((k.kf.clone(), k.what.clone()));
             }
